@@ -112,4 +112,183 @@ class CcXorH(Harness):
         return out
 
 
-HARNESSES = [CcAnyH(), CcXorH()]
+class DefaultPriosH(Harness):
+    """StingyConfigurator.default_prios (real source) against the contract of flatten (assumed, as in C03):
+    every flattened node's id is a key; the entry of a node is its configurator tag `prio` if it carries one and -1
+    (the plain level) otherwise -- for a model in which one id has one definition."""
+    name = "StingyConfigurator.default_prios"
+    function = "StingyConfigurator.default_prios"
+    module = "puan.modules.configurator"
+
+    def cases(self):
+        return [{}]
+
+    def setup(self, c, case):
+        from pyvc.folds import Base
+        from pyvc.nodes import Family, Contract
+        from pyvc.sym import fresh_name
+        repo = c.repo
+        cc = repo.load("puan.modules.configurator")
+        base = Base("F")
+        base.distinct = False
+        c.bases[base.ivar.get_id()] = base
+        c.assume_global(base.n >= 1)
+        fam = Family("F", base, "node")
+        fam.optional_prio = True
+        c.families["F"] = fam
+        i = base.ivar
+        k0 = z3.Int(fresh_name("k0.F"))
+        c.index_terms.setdefault("F", []).append(k0)
+        c.assume_global(base.inrange(k0))
+        hp, pr, fid = fam.fn("has_prio", Bo), fam.fn("prio"), fam.fn("id")
+        # one definition per id: elements sharing the witness's id carry the same tag
+        c.add_pointwise(i, z3.Implies(fid(i) == fid(k0), z3.And(hp(i) == hp(k0), pr(i) == pr(k0))))
+        # a plain variable carries no tag
+        c.add_pointwise(i, z3.Implies(fam.fn("atom", Bo)(i), z3.Not(hp(i))))
+        flat = Seq([Gen(base, z3.BoolVal(True), fam.at(i))])
+        cfg = object.__new__(cc.StingyConfigurator)
+        cfg.__dict__.update(generated_id=False, value=1, sign=1, propositions=[], variable=repo.puan.variable("cfg"))
+        cfg.__dict__["flatten"] = lambda: flat
+        return {"cfg": cfg, "fam": fam, "k0": k0}
+
+    def run(self, c, st):
+        return st["cfg"].default_prios
+
+    def ensures(self, c, st, res):
+        fam, k0 = st["fam"], st["k0"]
+        node = fam.at(k0)
+        want = ite(node.sym_bool("has_prio"), node.sym("prio"), -1)
+        key = node.id
+        has = key in res
+        out = [("default_prios/key", has)]
+        if has:
+            out.append(("default_prios/value", res[key] == want))
+        return out
+
+    def concretise(self, case, k, model, c, st):
+        from .common import _mv
+        fam, k0 = st["fam"], model.eval(st["k0"], model_completion=True)
+        return {"atom": bool(_mv(model, fam.fn("atom", Bo)(k0))), "has_prio": bool(_mv(model, fam.fn("has_prio", Bo)(k0))),
+                "prio": int(_mv(model, fam.fn("prio")(k0)))}
+
+    def replay(self, w):
+        """a real configurator containing a node of the witness's kind (leaf / untagged rule / tagged branch)"""
+        import puan.logic.plog as pg
+        import puan.modules.configurator as cc
+        cfg = cc.StingyConfigurator(cc.Any("a", "b", "e", default=["a"], variable="R"), pg.Any("c", "d", variable="P"), id="cfg")
+        flat = cfg.flatten()
+        if w["atom"]:
+            node, want = [x for x in flat if x.id == "c"][0], -1
+        elif not w["has_prio"]:
+            node, want = [x for x in flat if x.id == "P"][0], -1
+        else:
+            node = [x for x in flat if hasattr(x, "prio")][0]
+            node.prio = w["prio"]
+            want = w["prio"]
+        cfg2 = cc.StingyConfigurator(*cfg.propositions, id="cfg")
+        dp = cfg2.default_prios
+        violated = []
+        if node.id not in dp:
+            violated.append("default_prios/key")
+        elif dp[node.id] != want:
+            violated.append("default_prios/value")
+        return {"violated": violated, "detail": {"node": str(node.id), "default_prios": {str(k_): int(v) for k_, v in dp.items()}, "want": want}}
+
+
+class VectorsFromPriosH(Harness):
+    """ge_polyhedron_config._vectors_from_prios (real source, symbolic ndarray layer): for each priority dictionary the
+    array handed to the shadow compression is the two-level stack [default vector, user row], the user row holding the
+    dictionary's value at the columns it names and 0 elsewhere (column order = A.variables), compressed along axis 0
+    with method 'shadow'.  The compression itself is C13 / A-rs2 and is replaced by a recorder here."""
+    name = "ge_polyhedron_config._vectors_from_prios"
+    function = "ge_polyhedron_config._vectors_from_prios"
+    module = "puan.ndarray"
+    numpy_mode = "sym"
+
+    def cases(self):
+        return [{"cols": 2, "named": [[0], []]}, {"cols": 3, "named": [[0, 2]]}, {"cols": 3, "named": [[1], [0, 1, 2], []]}]
+
+    def setup(self, c, case):
+        from .c12 import sym_polyhedron
+        pnd = c.repo.load("puan.ndarray")
+        k = case["cols"]
+        p, A, b, lo, hi = sym_polyhedron(c, 1, k)
+        dv = [SInt(z3.Int(f"dv{j}")) for j in range(k)]
+        cfg = pnd.ge_polyhedron_config(p, default_prio_vector=pnd.integer_ndarray(dv), variables=p.variables, index=p.index)
+        prios = []
+        for q, cols in enumerate(case["named"]):
+            d = {f"v{j}": SInt(z3.Int(f"p{q}_{j}")) for j in cols}
+            d["not-a-column"] = SInt(z3.Int(f"p{q}_x"))
+            prios.append(d)
+        rec = {}
+        orig = pnd.integer_ndarray.ndint_compress
+
+        def recorder(self_, method="last", axis=None, **kw):
+            rec["arr"], rec["method"], rec["axis"], rec["kw"] = self_, method, axis, kw
+            return "COMPRESSED"
+        pnd.integer_ndarray.ndint_compress = recorder
+        c.on_exit = lambda: setattr(pnd.integer_ndarray, "ndint_compress", orig)
+        return {"cfg": cfg, "dv": dv, "prios": prios, "rec": rec, "orig": orig, "pnd": pnd}
+
+    def run(self, c, st):
+        c.nd_epoch = 1
+        try:
+            return st["cfg"]._vectors_from_prios(st["prios"])
+        finally:
+            st["pnd"].integer_ndarray.ndint_compress = st["orig"]
+
+    def ensures(self, c, st, res):
+        rec, dv, prios = st["rec"], st["dv"], st["prios"]
+        k = c.state_case["cols"]
+        out = [("vectors/compress-called", res == "COMPRESSED" and rec.get("method") == "shadow" and rec.get("axis") == 0 and not rec.get("kw"))]
+        arr = rec.get("arr")
+        if arr is None:
+            return out
+        out.append(("vectors/shape", tuple(arr.shape) == (len(prios), 2, k)))
+        if tuple(arr.shape) != (len(prios), 2, k):
+            return out
+        for q, d in enumerate(prios):
+            out.append((f"vectors/default-row[{q}]", band(*[arr[q][0][j] == dv[j] for j in range(k)])))
+            out.append((f"vectors/user-row[{q}]", band(*[arr[q][1][j] == (d[f"v{j}"] if f"v{j}" in d else 0) for j in range(k)])))
+        return out
+
+    def concretise(self, case, k, model, c, st):
+        from .common import _mv
+        return {"cols": case["cols"], "dv": [_mv(model, v.t) for v in st["dv"]],
+                "prios": [{key: _mv(model, v.t) for key, v in d.items()} for d in st["prios"]]}
+
+    def replay(self, w):
+        import numpy as np
+        import puan
+        import puan.ndarray as pnd
+        k = w["cols"]
+        vs = [puan.variable(0, (1, 1))] + [puan.variable(f"v{j}") for j in range(k)]
+        p = pnd.ge_polyhedron([[0] + [1] * k], variables=vs, index=[puan.variable("r0")])
+        cfg = pnd.ge_polyhedron_config(p, default_prio_vector=pnd.integer_ndarray(w["dv"]), variables=p.variables, index=p.index)
+        rec = {}
+        orig = pnd.integer_ndarray.ndint_compress
+
+        def recorder(self_, method="last", axis=None, **kw):
+            rec["arr"], rec["method"], rec["axis"] = np.array(self_), method, axis
+            return "COMPRESSED"
+        pnd.integer_ndarray.ndint_compress = recorder
+        try:
+            res = cfg._vectors_from_prios(w["prios"])
+        finally:
+            pnd.integer_ndarray.ndint_compress = orig
+        violated = []
+        if not (isinstance(res, str) and rec.get("method") == "shadow" and rec.get("axis") == 0):
+            violated.append("vectors/compress-called")
+        arr = rec.get("arr")
+        if arr is None or arr.shape != (len(w["prios"]), 2, k):
+            violated.append("vectors/shape")
+        else:
+            for q, d in enumerate(w["prios"]):
+                if [int(x) for x in arr[q][0]] != w["dv"]:
+                    violated.append(f"vectors/default-row[{q}]")
+                if [int(x) for x in arr[q][1]] != [d.get(f"v{j}", 0) for j in range(k)]:
+                    violated.append(f"vectors/user-row[{q}]")
+        return {"violated": violated, "detail": {"handed_to_compress": None if arr is None else arr.tolist()}}
+
+
+HARNESSES = [CcAnyH(), CcXorH(), DefaultPriosH(), VectorsFromPriosH()]
